@@ -415,6 +415,17 @@ func gen2opt(r *rand.Rand, span int64, k int) []ipt {
 	return p
 }
 
+// genDart: a concave quadrilateral (arrow head): tip, right wing, notch, left wing.  Narrow darts
+// (wing tips closer together than tip and notch) and wide ones alike; the only diagonal inside the
+// quadrilateral is the one through the notch.
+func genDart(r *rand.Rand) []ipt {
+	w1, w2 := 1+r.Int63n(5), 1+r.Int63n(5)
+	d := 1 + r.Int63n(6)
+	h := d + 1 + r.Int63n(24)
+	y1, y2 := r.Int63n(d), r.Int63n(d)
+	return []ipt{{0, h}, {w1, y1}, {0, d}, {-w2, y2}}
+}
+
 // random polygon grown by splitting edges (many reflex vertices)
 func genGrow(r *rand.Rand, span int64, k int) []ipt {
 	p := genConvex(r, span, 3+r.Intn(3))
@@ -531,5 +542,11 @@ func rigids(r *rand.Rand) []rigid {
 		{"my", func(p ipt) ipt { return ipt{p.x, -p.y} }, true},
 		{"sw", func(p ipt) ipt { return ipt{p.y, p.x} }, true},
 		{"r90tr", func(p ipt) ipt { return ipt{-p.y + tx, p.x + ty} }, false},
+		// exact rotations by Pythagorean angles (composed with the scaling by the hypotenuse, which the
+		// lattice absorbs: similarity maps, cert_similarity_invariant): rectilinear outlines and colinear
+		// runs stay exactly rectilinear / colinear but are no longer parallel to the axes
+		{"pyth345", func(p ipt) ipt { return ipt{3*p.x - 4*p.y + tx, 4*p.x + 3*p.y + ty} }, false},
+		{"pyth51213", func(p ipt) ipt { return ipt{12*p.x + 5*p.y, -5*p.x + 12*p.y} }, false},
+		{"pyth345mx", func(p ipt) ipt { return ipt{-(3*p.x - 4*p.y), 4*p.x + 3*p.y} }, true},
 	}
 }
